@@ -7,13 +7,14 @@ export GOFLAGS=-mod=mod GOPROXY=off
 cd "$WT" || exit 2
 git checkout -q -- . && git clean -fdq
 TEST=$(grep -o 'func TestSeeded[A-Za-z0-9_]*' "$D/m${K}_demo_test.go" | head -1 | sed 's/func //')
-cp "$D/m${K}_demo_test.go" "$WT/zz_seeded_demo_test.go"
+PKGDIR=.; grep -q '^package dnsutil' "$D/m${K}_demo_test.go" && PKGDIR=./dnsutil
+cp "$D/m${K}_demo_test.go" "$WT/$PKGDIR/zz_seeded_demo_test.go"
 echo "== demo on pristine ($TEST)"
-go test -vet=off -count=1 -run "^${TEST}\$" . 2>&1 | tail -3; P=${PIPESTATUS[0]}
-git apply "$D/m${K}.diff" || { echo "APPLY FAILED"; rm -f zz_seeded_demo_test.go; exit 2; }
+go test -vet=off -count=1 -run "^${TEST}\$" $PKGDIR 2>&1 | tail -3; P=${PIPESTATUS[0]}
+git apply "$D/m${K}.diff" || { echo "APPLY FAILED"; rm -f $PKGDIR/zz_seeded_demo_test.go; exit 2; }
 echo "== demo with change"
-go test -vet=off -count=1 -run "^${TEST}\$" . 2>&1 | tail -5; F=${PIPESTATUS[0]}
-rm -f zz_seeded_demo_test.go
+go test -vet=off -count=1 -run "^${TEST}\$" $PKGDIR 2>&1 | tail -5; F=${PIPESTATUS[0]}
+rm -f $PKGDIR/zz_seeded_demo_test.go
 echo "== suite with change"
 go test -vet=off -count=1 ./... 2>&1 | tail -3; S=${PIPESTATUS[0]}
 git checkout -q -- . && git clean -fdq
